@@ -28,24 +28,29 @@ META = {
     "coq_targets": ["Props/Properties_C18.vo", "Resync/Check.vo"],
     "coq_files": ["Gen/MetaConsts.v", "Gen/ResyncConsts.v", "Meta/SMap.v", "Meta/Model.v", "Meta/Spec.v", "Meta/Check.v",
                   "Meta/SMapProofs.v", "Meta/StatusProofs.v", "Meta/WfProofs.v", "Resync/Model.v", "Resync/Check.v",
-                  "Resync/BatchProofs.v", "Resync/FlatProofs.v", "Resync/GcProofs.v", "Props/Properties_C18.v"],
+                  "Resync/BatchProofs.v", "Resync/FlatProofs.v", "Resync/KnownProofs.v", "Resync/GcProofs.v", "Props/Properties_C18.v"],
     "theorems": ["C18_batching_irrelevant", "C18_order_independent_partial", "C18_status_follows_from_blobs_partial",
-                 "C18_conflict_is_order_dependent", "C18_live_conflict_is_order_dependent", "C18_expired_lock_unindexed_refuted",
+                 "C18_no_blob_lost_partial", "C18_conflict_is_order_dependent", "C18_live_conflict_is_order_dependent", "C18_expired_lock_unindexed_refuted",
                  "C18_tombstoned_expired_refuted", "C18_child_after_tombstone_refuted", "C18_gc_reclaims", "C18_gc_listed"],
     "technique": "Coq proof (induction over the enumeration order with an order-free characterisation of the rebuilt bucket; invariant of "
                  "put for the garbage marks) over the shared metabase model + differential correspondence with meta.DB.ResyncFromBlobstor on a "
-                 "real shard (real fstree, permuting common.Storage wrapper, all permutations of small blob sets, the shard's own GC pass)",
+                 "real shard (real fstree, permuting common.Storage wrapper, all permutations of small blob sets, blob sets of resync_batch_size + k objects with a "
+                 "tombstone/lock group at the batch boundary, the shard's own GC pass)",
     "level_text": "C18_order_independent_partial: for every rebuild epoch, query epoch, batch size and every two enumeration orders of a blob set of "
                   "regular/link objects, tombstones and locks without family relations that satisfies the boolean premise flat_ok (no target with both a "
                   "lock and a tombstone, no lock of a non-regular / tombstone of a tombstone or lock, distinct addresses) and no_tomb_exp (no tombstoned "
                   "blob expired at the query epoch), the rebuild succeeds and every address gets the same reference status (Meta/Spec.v), namely "
-                  "status_of_blobs, a function of the blob SET only. The excluded classes are exhibited as order-dependent by vm_compute witnesses "
+                  "status_of_blobs, a function of the blob SET only. C18_no_blob_lost_partial (same premise flat_ok): in every order and for the generated batch "
+                  "size every tombstone, every lock and every object not removed by a tombstone of the set is indexed with its own header (no blob is lost "
+                  "between batches). The excluded classes are exhibited as order-dependent by vm_compute witnesses "
                   "(C18_conflict_is_order_dependent: expired lock + tombstone rebuilt at epoch 0, the production configuration; ..._refuted theorems). "
                   "C18_gc_reclaims (all blob sets, all orders, with relations): after a rebuild every target of an indexed tombstone carries a garbage "
                   "mark, and C18_gc_listed: GetGarbage with a sufficient limit lists every marked ID. The model is tied on every run: every permutation "
                   "of blob sets up to 5-6 objects (random orders above) through a real shard; dumped bucket content, Exists (both modes), IsLocked, "
                   "GetGarbage per order compared with the model, statuses compared across orders and with status_of_blobs, blobs left by the shard's GC "
-                  "compared with the removed set.",
+                  "compared with the removed set; on every run also sets of resync_batch_size + k blobs (k = 1, 2, 3, ...; the constant is read from the compiled "
+                  "code) with a target/tombstone/lock group at enumeration positions B-2 .. B+1, last and the mirrored ones, in list order, reversed and "
+                  "rotated, where Exists on EVERY blob address is compared with the order-free reference (status_of_blobs + must_know).",
     "level_note": "partial: the order-independence theorem covers blob sets without family relations (split children, EC parts are tied and compared "
                   "across orders on every run, not proved) and excludes four classes that the real code shows to be order-dependent (known findings "
                   "c18-*); the full-strength statement is refuted by witnesses. Modelled, not verified: bbolt (ordered map, atomic transactions), "
@@ -64,9 +69,9 @@ PRELUDE = ("From Coq Require Import List NArith ZArith.\nImport ListNotations.\n
 
 def plan(ctx):
     if ctx.tier == "quick":
-        return [("corpus", 5, 5, 0), ("flat", 24, 5, 4), ("flat", 1, 6, 4), ("hist", 18, 5, 4), ("full", 14, 5, 4)]
+        return [("corpus", 5, 5, 0), ("flat", 24, 5, 4), ("flat", 1, 6, 4), ("hist", 18, 5, 4), ("full", 14, 5, 4), ("large", 3, 0, 1)]
     return [("corpus", 5, 5, 0), ("flat", 300, 5, 8), ("flat", 24, 6, 8), ("hist", 200, 5, 8), ("hist", 12, 6, 8), ("full", 160, 5, 8),
-            ("full", 12, 6, 8), ("big", 1, 1100, 0)]
+            ("full", 12, 6, 8), ("big", 1, 1100, 0), ("large", 8, 0, 2)]
 
 
 def perm_views(p):
@@ -126,19 +131,41 @@ def is_all_perms(c):
     return all(tuple(p["ord"]) == t for p, t in zip(ps, itertools.permutations(range(n))))
 
 
+LARGE = 100   # blob sets above this size: own coqc job, compact orders, compact reports
+
+
+def coq_order(ord_):
+    """a long enumeration order as a Coq expression (identity / reversed / rotation), else a literal"""
+    n = len(ord_)
+    if n > 20:
+        if ord_ == list(range(n)):
+            return "(seq 0 %d)" % n
+        if ord_ == list(range(n - 1, -1, -1)):
+            return "(rev (seq 0 %d))" % n
+        k = ord_[0]
+        if ord_ == list(range(k, n)) + list(range(k)):
+            return "(seq %d %d ++ seq 0 %d)" % (k, n - k, k)
+    return "[%s]%%nat" % "; ".join(str(i) for i in ord_)
+
+
+def short_ord(o):
+    return o if len(o) <= 20 else coq_order(o)
+
+
 def coq_case(c):
     blobs = "; ".join("(%d, %s)" % (o["c"], M.coq_obj(o)) for o in c["blobs"])
     if is_all_perms(c):
         spec = "PAll"
     else:
-        spec = "(PList [%s])" % "; ".join("[%s]%%nat" % "; ".join(str(i) for i in p["ord"]) for p in c["perms"])
+        spec = "(PList [%s])" % "; ".join(coq_order(p["ord"]) for p in c["perms"])
     return "(mkCase %d %d [%s] %s)" % (c["e"], c["q"], blobs, spec)
 
 
 def evaluate(ctx, cases):
-    """-> dict model/ref/gc -> set((case, perm)), classes list; None on failure"""
-    # balance chunks by number of orders
-    order = sorted(range(len(cases)), key=lambda i: -len(cases[i]["perms"]))
+    """-> dict model/ref/gc -> set((case, perm)), classes list, ref_all lists; None on failure"""
+    # balance chunks by number of orders; every large case is a job of its own
+    large = [i for i in range(len(cases)) if len(cases[i]["blobs"]) > LARGE]
+    order = sorted((i for i in range(len(cases)) if len(cases[i]["blobs"]) <= LARGE), key=lambda i: -len(cases[i]["perms"]))
     nch = min(8 if ctx.tier == "quick" else vlib.NCPU, max(1, len(cases)))   # every coqc pays the library load
     chunks = [[] for _ in range(nch)]
     load = [0] * nch
@@ -146,22 +173,23 @@ def evaluate(ctx, cases):
         k = load.index(min(load))
         chunks[k].append(i)
         load[k] += len(cases[i]["perms"]) + 5
-    chunks = [ch for ch in chunks if ch]
+    chunks = [ch for ch in chunks if ch] + [[i] for i in large]
     jobs = []
     for ch in chunks:
         text = PRELUDE + "".join("Definition k%d : case := %s.\n" % (j, coq_case(cases[i])) for j, i in enumerate(ch))
         text += "Definition cases : list case := [%s].\n" % "; ".join("k%d" % j for j in range(len(ch)))
         jobs.append(("c18", text, {"dig": "model_digests cases", "ref": "ref_mismatches cases", "gc": "gc_mismatches cases",
-                                   "cls": "case_classes cases"}))
+                                   "cls": "case_classes cases", "all": "ref_alls cases"}))
     out = {"model": set(), "ref": set(), "gc": set()}
     classes = [None] * len(cases)
+    refall = [None] * len(cases)
     for ch, res in zip(chunks, ctx.coq_eval_many(jobs)):
         if res is None:
-            return None, None
+            return None, None, None
         want = [(i, j, perm_digest(cases[i], p) * 2 + (1 if p["ok"] else 0)) for i in ch for j, p in enumerate(cases[i]["perms"])]
         if len(want) != len(res["dig"]):
             ctx.notes.append("model returned %d digests for %d orders" % (len(res["dig"]), len(want)))
-            return None, None
+            return None, None, None
         for (i, j, w), d in zip(want, res["dig"]):
             if w != d:
                 out["model"].add((i, j))
@@ -170,7 +198,12 @@ def evaluate(ctx, cases):
                 out[k].add((ch[code // 100000], code % 100000))
         for j, cl in enumerate(res["cls"]):
             classes[ch[j]] = cl
-    return out, classes
+        pos = 0
+        for i in ch:                      # ref_alls: per case [length, items...]
+            n = res["all"][pos]
+            refall[i] = res["all"][pos + 1:pos + 1 + n]
+            pos += 1 + n
+    return out, classes, refall
 
 
 # ---------------------------------------------------------------- classification of order dependence (implementation only)
@@ -272,9 +305,13 @@ def case_input(c, perms=None):
     return {"e": c["e"], "q": c["q"], "blobs": c["blobs"], "perms": [p["ord"] for p in (perms if perms is not None else c["perms"])]}
 
 
+BATCH = {}
+
+
 def run(ctx):
     binp = ctx.go_build()
-    R.gen_consts(ctx, binp)
+    consts, _ = R.gen_consts(ctx, binp)
+    BATCH["b"] = consts["resync_batch_size"]
     ctx.prove()
     if not ctx.model_ready(["Resync/Check.vo"]):
         ctx.tie(False)
@@ -295,7 +332,7 @@ def run(ctx):
     ctx.tie(not vacuous)
     if vacuous:
         ctx.notes.append("harness blobs were rejected by the rebuild (iteration errors): check is vacuous")
-    res, classes = evaluate(ctx, cases)
+    res, classes, refall = evaluate(ctx, cases)
     if res is None:
         ctx.tie(False)
         return
@@ -305,9 +342,56 @@ def run(ctx):
     ctx.tie(not res["ref"])           # premise-satisfying sets: every order gives status_of_blobs
     ctx.tie(not res["gc"])            # targets of indexed tombstones are reported by GetGarbage
 
+    # premise-satisfying sets: Exists on the address of EVERY blob after every order = the order-free reference
+    # (status_of_blobs, and no blob lost: C18_no_blob_lost_partial), implementation against reference directly
+    all_bad = {}
+    for i, c in enumerate(cases):
+        ra = refall[i]
+        if not ra:
+            continue
+        for j, p in enumerate(c["perms"]):
+            got = p.get("all")
+            if got is None or len(got) != len(ra):
+                all_bad[(i, j)] = [-1]
+                continue
+            bad = [b for b, (cl, r) in enumerate(zip(got, ra)) if cl != r // 2]
+            if bad:
+                all_bad[(i, j)] = bad
+    ctx.tie(not all_bad)
+
     viol = 0
+    seen_case = set()
+    for (i, j) in sorted(all_bad):
+        c = cases[i]
+        p = c["perms"][j]
+        ra = refall[i]
+        if viol >= 4 or (i in seen_case and len(c["blobs"]) > LARGE):
+            continue
+        seen_case.add(i)
+        ctx.violation({"case": case_input(c, [p]),
+                       "what": "after this enumeration order the rebuilt metabase reports a blob with a status different from the one that "
+                               "follows from the stored blobs (class 0 = unknown to the metabase: the blob was lost by the rebuild)",
+                       "batch_size": BATCH.get("b"),
+                       "wrong": [{"blob_index": b, "position_in_order": p["ord"].index(b) if b >= 0 else None,
+                                  "blob": c["blobs"][b] if b >= 0 else None,
+                                  "impl_exists_class": p["all"][b] if b >= 0 and p.get("all") else None,
+                                  "reference_class": ra[b] // 2 if b >= 0 else None, "must_be_known": bool(ra[b] % 2) if b >= 0 else None}
+                                 for b in all_bad[(i, j)][:8]],
+                       "known_to_impl": sum(1 for x in (p.get("all") or []) if x != 0),
+                       "must_be_known_by_reference": sum(r % 2 for r in ra), "blobs": len(c["blobs"])})
+        viol += 1
     for (i, j) in sorted(model_bad)[:6]:
         c = cases[i]
+        if len(c["blobs"]) > LARGE:
+            if (i, j) in all_bad or i in seen_case:
+                continue              # reported above against the reference
+            seen_case.add(i)
+            p = c["perms"][j]
+            ctx.violation({"case": case_input(c, [p]), "what": "model and implementation disagree after this enumeration order (large set)",
+                           "impl": {"ok": p["ok"], "indexed": sum(len(d["objs"]) for d in p["cnrs"]), "exists": p["exists"],
+                                    "locked": p["locked"], "garbage": p["garbage"]}})
+            viol += 1
+            continue
         full = ctx.coq_eval_lists("c18full", PRELUDE + "Definition k : case := %s.\n" % coq_case(dict(c, perms=[c["perms"][j]])),
                                   {"m": "model_full k [%s]%%nat" % "; ".join(str(x) for x in c["perms"][j]["ord"])})
         p = c["perms"][j]
@@ -339,6 +423,8 @@ def run(ctx):
         unexplained = (d | set(unrec)) - aff
         if classes[i] == 0 or (unexplained and not excluded) or (len(oks) > 1 and not excluded) or (not keys and not excluded):
             order_dep_unknown += 1
+            if len(c["blobs"]) > LARGE and i in seen_case:
+                continue              # this large set is already reported with a failing order
             ps = c["perms"]
             # two orders that differ
             key = lambda p: json.dumps([p["exists"], p["existsi"], p["locked"], p["garbage"], p.get("remain"), p["ok"]])
@@ -346,8 +432,8 @@ def run(ctx):
             b = next((p for p in ps if key(p) != key(a)), ps[-1])
             ctx.violation({"case": case_input(c, [a, b]), "what": "statuses / garbage / reclaimed blobs depend on the enumeration order",
                            "differs_at": sorted(d), "unreclaimed": unrec, "premise_class": classes[i],
-                           "order_a": {k: a[k] for k in ("ord", "ok", "exists", "locked", "garbage", "remain") if k in a},
-                           "order_b": {k: b[k] for k in ("ord", "ok", "exists", "locked", "garbage", "remain") if k in b}})
+                           "order_a": {k: short_ord(a[k]) if k == "ord" else a[k] for k in ("ord", "ok", "exists", "locked", "garbage", "remain") if k in a},
+                           "order_b": {k: short_ord(b[k]) if k == "ord" else b[k] for k in ("ord", "ok", "exists", "locked", "garbage", "remain") if k in b}})
             continue
         if excluded and not keys:
             stats["excluded_by_premise"] += 1
@@ -392,6 +478,9 @@ def run(ctx):
                 "compared with the model; blob sets from one splitmix64 stream (VERIF_SEED): flat = random regular/tombstone/lock/link sets over 2 "
                 "containers x 8 IDs (a third repaired to satisfy the theorem's premise, a third forced lock+tombstone conflicts), hist = the objects a real "
                 "metabase accepted in a normal operation history with advancing epochs, full = split chains / EC parts with embedded parent headers; "
+                "large = resync_batch_size + k blobs (k small, batch size read from the compiled code): tiny regular fillers with a few tombstones/locks "
+                "and a group X, T(X), Y, L(Y), Z placed at and around the batch boundary of the enumeration, in list order, reversed and rotated; "
+                "after every order Exists on EVERY blob address is compared with the order-free reference (status_of_blobs, no blob lost); "
                 "rebuild epoch 0 (production) or the real epoch; ALL permutations for sets up to 5 (a few up to 6) blobs, random orders above; "
                 "distinct = digests of (state, views); non-trivial = at least two different non-absent Exists classes",
         "cases": len(cases),
@@ -401,6 +490,13 @@ def run(ctx):
         "blob_type_histogram": th,
         "rebuild_epoch_histogram": {"epoch0": sum(1 for c in cases if c["e"] == 0), "real": sum(1 for c in cases if c["e"] != 0)},
         "order_dependence": stats,
+        "resync_batch_size": BATCH.get("b"),
+        "large_cases": [{"blobs": len(c["blobs"]), "orders": len(c["perms"]),
+                         "group_position_minus_batch_size": {["X", "T(X)", "Y", "L(Y)", "Z"][o["id"] - 1]: k - BATCH.get("b", 0)
+                                                             for k, o in enumerate(c["blobs"]) if o["id"] <= 5},
+                         "first_of_rotation": [p["ord"][0] for p in c["perms"][2:]]}
+                        for c in cases if c["profile"] == "large"],
+        "every_blob_checked_against_reference": sum(len(r) * len(c["perms"]) for c, r in zip(cases, refall) if r),
         "traces_validated_against_impl": nperm,
         "samples": [{"e": sample["e"], "q": sample["q"], "blobs": sample["blobs"], "history": sample.get("hist"),
                      "first_order": {k: sample["perms"][0][k] for k in ("ord", "ok", "exists", "locked", "garbage")}}] if sample else [],
